@@ -477,12 +477,14 @@ fn frag_check<Ctx: Cx>(
     prop: Prop,
     ctxname: &'static str,
     te: &Terms<Ctx>,
+    extra: &[T],
     sigver: SigVer,
     form: KeyForm,
     thorough: bool,
 ) -> Census {
     use miniscript::miniscript::types::Base;
-    let all: Vec<T> = te.all().map(|m| walk(m).relabel_distinct()).collect();
+    let mut all: Vec<T> = te.all().map(|m| walk(m).relabel_distinct()).collect();
+    all.extend(extra.iter().cloned());
     all.par_iter()
         .fold(Census::new, |mut cen, t| {
             let env = DefEnv { form, with_origin: true };
@@ -610,7 +612,12 @@ fn frag_check<Ctx: Cx>(
                                         if sigver != SigVer::Base && wsize > sd.max_witness_stack_size {
                                             b.push(format!("witness bytes {} > max_witness_stack_size {}", wsize, sd.max_witness_stack_size));
                                         }
-                                        if count > sd.max_witness_stack_count {
+                                        // In malleable mode the satisfier may pick, on equal byte size, a
+                                        // dissatisfaction through a branch the static analysis does not count as
+                                        // dissatisfiable (e.g. and_v): the element count of a node-level
+                                        // DISsatisfaction is therefore only compared in non-malleable mode; the
+                                        // byte figures (what fees depend on) are compared in both.
+                                        if count > sd.max_witness_stack_count && !(mall && which == "dissat") {
                                             b.push(format!("elements {} > max_witness_stack_count {}", count, sd.max_witness_stack_count));
                                         }
                                         if sigver == SigVer::Base && sssize > sd.max_script_sig_size {
@@ -804,11 +811,35 @@ pub fn run(prop: Prop, tier: Tier) -> i32 {
         lim_seg.accepted = lim_seg.count() as u64;
         lim_leg.accepted = lim_leg.count() as u64;
         lim_tap.accepted = lim_tap.count() as u64;
-        let c1 = frag_check::<Segwitv0>(&rep, prop, "segwitv0", &lim_seg, SigVer::WitnessV0, KeyForm::Compressed, thorough);
+        // every sub-term of the descriptor families that lie beyond the fragment bound (contexts,
+        // macro fragments, wide thresholds): the node-level checks run on each of their nodes too
+        let subterms = |pick: &dyn Fn(&D) -> Option<&T>| -> Vec<T> {
+            let mut set: std::collections::BTreeSet<T> = std::collections::BTreeSet::new();
+            for d in &models {
+                if let Some(t) = pick(d) {
+                    if t.size() > b.n_frag && t.keys().len() <= 6 {
+                        for n in t.nodes() {
+                            if n.size() > b.n_frag.min(3) {
+                                set.insert(n.clone());
+                            }
+                        }
+                    }
+                }
+            }
+            set.into_iter().collect()
+        };
+        let ex_seg = subterms(&|d| if let D::Wsh(t) = d { Some(t) } else { None });
+        let ex_leg = subterms(&|d| if let D::Sh(t) = d { Some(t) } else { None });
+        let ex_tap = subterms(&|d| match d {
+            D::Tr(_, l) if l.len() == 1 => Some(&l[0].1),
+            _ => None,
+        });
+        rep.count("family_subterms_checked_at_node_level", (ex_seg.len() + ex_leg.len() + ex_tap.len()) as u64);
+        let c1 = frag_check::<Segwitv0>(&rep, prop, "segwitv0", &lim_seg, &ex_seg, SigVer::WitnessV0, KeyForm::Compressed, thorough);
         rep.merge_counts(&c1);
-        let c2 = frag_check::<Legacy>(&rep, prop, "legacy", &lim_leg, SigVer::Base, KeyForm::Compressed, thorough);
+        let c2 = frag_check::<Legacy>(&rep, prop, "legacy", &lim_leg, &ex_leg, SigVer::Base, KeyForm::Compressed, thorough);
         rep.merge_counts(&c2);
-        let c3 = frag_check::<Tap>(&rep, prop, "tap", &lim_tap, SigVer::Tapscript, KeyForm::XOnly, thorough);
+        let c3 = frag_check::<Tap>(&rep, prop, "tap", &lim_tap, &ex_tap, SigVer::Tapscript, KeyForm::XOnly, thorough);
         rep.merge_counts(&c3);
     }
     if prop == Prop::C02 {
